@@ -2116,4 +2116,263 @@ theorem C04_while_loop (img : Image) (P0 : Nat) (e : Expr) (b : List Instr) (bod
 
 end WhileLoop
 
+/-! ## 6. names in order -/
+
+/-- one insertion step of `Vm.sortNames` -/
+def insName (x : String) (acc : List String) : List String :=
+  acc.takeWhile (· < x) ++ [x] ++ acc.dropWhile (· < x)
+
+theorem insName_cons (x a : String) (acc : List String) :
+    insName x (a :: acc) = if a < x then a :: insName x acc else x :: a :: acc := by
+  unfold insName
+  by_cases h : a < x
+  · simp [h]
+  · simp [h]
+
+theorem insName_perm (x : String) (acc : List String) : (insName x acc).Perm (x :: acc) := by
+  unfold insName
+  have h := List.takeWhile_append_dropWhile (p := (· < x)) (l := acc)
+  calc acc.takeWhile (· < x) ++ [x] ++ acc.dropWhile (· < x)
+      = acc.takeWhile (· < x) ++ x :: acc.dropWhile (· < x) := by simp
+    _ |>.Perm (x :: (acc.takeWhile (· < x) ++ acc.dropWhile (· < x))) := List.perm_middle
+    _ = x :: acc := by rw [h]
+
+theorem mem_insName (x y : String) (acc : List String) : y ∈ insName x acc ↔ y = x ∨ y ∈ acc := by
+  rw [(insName_perm x acc).mem_iff]; simp
+
+theorem insName_sorted (x : String) (acc : List String) (h : acc.Pairwise (· ≤ ·)) :
+    (insName x acc).Pairwise (· ≤ ·) := by
+  induction acc with
+  | nil => simp [insName]
+  | cons a acc ih =>
+    rw [insName_cons]
+    rw [List.pairwise_cons] at h
+    split
+    · rename_i hlt
+      rw [List.pairwise_cons]
+      refine ⟨?_, ih h.2⟩
+      intro y hy
+      rcases (mem_insName x y acc).1 hy with rfl | hy
+      · exact fun hgt => String.lt_asymm hlt hgt
+      · exact h.1 y hy
+    · rename_i hge
+      rw [List.pairwise_cons, List.pairwise_cons]
+      refine ⟨?_, h.1, h.2⟩
+      intro y hy
+      rcases List.mem_cons.1 hy with rfl | hy
+      · exact hge
+      · exact String.le_trans hge (h.1 y hy)
+
+theorem sortNames_eq (xs : List String) : sortNames xs = xs.foldl (fun acc x => insName x acc) [] := rfl
+
+theorem foldl_ins_sorted (xs acc : List String) (h : acc.Pairwise (· ≤ ·)) :
+    (xs.foldl (fun acc x => insName x acc) acc).Pairwise (· ≤ ·) := by
+  induction xs generalizing acc with
+  | nil => exact h
+  | cons x xs ih => exact ih _ (insName_sorted x acc h)
+
+theorem foldl_ins_perm (xs acc : List String) :
+    (xs.foldl (fun acc x => insName x acc) acc).Perm (xs ++ acc) := by
+  induction xs generalizing acc with
+  | nil => exact .refl _
+  | cons x xs ih =>
+    refine (ih (insName x acc)).trans ?_
+    refine ((insName_perm x acc).append_left xs).trans ?_
+    simp
+
+/-- **`sortNames` sorts**: the result is in ascending order (Python's code-point order on
+strings, `String`'s `<`) … -/
+theorem C04_sortNames_sorted (xs : List String) : (sortNames xs).Pairwise (· ≤ ·) :=
+  foldl_ins_sorted xs [] .nil
+
+/-- … and is a rearrangement of the input: every name as often as it was given -/
+theorem C04_sortNames_perm (xs : List String) : (sortNames xs).Perm xs := by
+  have := foldl_ins_perm xs []
+  rw [List.append_nil] at this
+  exact this
+
+theorem mem_dedupSorted (xs : List String) (y : String) : y ∈ dedupSorted xs ↔ y ∈ xs := by
+  induction xs using dedupSorted.induct with
+  | case1 => simp [dedupSorted]
+  | case2 a => simp [dedupSorted]
+  | case3 a b rest hab ih =>
+    simp only [dedupSorted, hab, if_true, ih]
+    have : a = b := by simpa using hab
+    subst this; simp
+  | case4 a b rest hab ih =>
+    simp only [dedupSorted, hab, List.mem_cons, Bool.false_eq_true, if_false]
+    rw [ih]; simp
+
+theorem dedupSorted_strict (xs : List String) (h : xs.Pairwise (· ≤ ·)) :
+    (dedupSorted xs).Pairwise (· < ·) := by
+  induction xs using dedupSorted.induct with
+  | case1 => simp [dedupSorted]
+  | case2 a => simp [dedupSorted]
+  | case3 a b rest hab ih =>
+    simp only [dedupSorted, hab, if_true]
+    exact ih (List.pairwise_cons.1 h).2
+  | case4 a b rest hab ih =>
+    simp only [dedupSorted, hab]
+    rw [List.pairwise_cons] at h
+    simp only [Bool.false_eq_true, if_false]
+    rw [List.pairwise_cons]
+    refine ⟨?_, ih h.2⟩
+    intro y hy
+    have hy' := (mem_dedupSorted (b :: rest) y).1 hy
+    have hle : a ≤ y := h.1 y hy'
+    have hne : a ≠ b := by simpa using hab
+    -- a ≤ b ≤ y and a ≠ b
+    have hab' : a ≤ b := h.1 b (by simp)
+    have hlt : a < b := by
+      apply Classical.byContradiction
+      intro hn
+      exact hne (String.le_antisymm hab' (String.not_lt.1 hn))
+    rcases List.mem_cons.1 hy' with rfl | hyr
+    · exact hlt
+    · have hby : b ≤ y := (List.pairwise_cons.1 h.2).1 y hyr
+      apply Classical.byContradiction
+      intro hn
+      have : y ≤ a := String.not_lt.1 hn
+      exact (String.le_trans hby this) hlt
+
+
+theorem strict_nodup (xs : List String) (h : xs.Pairwise (· < ·)) : xs.Nodup :=
+  h.imp fun hlt => String.ne_of_lt hlt
+
+/-- `lightNames` (what `repeat all` and `all` in a list visit): strictly ascending — so every
+name exactly once — and exactly the names of the lights there are -/
+theorem C04_lightNames (s : State) :
+    s.lightNames.Pairwise (· < ·) ∧ s.lightNames.Nodup ∧
+    ∀ n, n ∈ s.lightNames ↔ ∃ l ∈ s.lights, l.name = n := by
+  have h1 := dedupSorted_strict _ (C04_sortNames_sorted (s.lights.map (·.name)))
+  refine ⟨h1, strict_nodup _ h1, fun n => ?_⟩
+  unfold State.lightNames
+  rw [mem_dedupSorted, (C04_sortNames_perm _).mem_iff]
+  simp
+
+theorem C04_groupNames (s : State) :
+    s.groupNames.Pairwise (· < ·) ∧ ∀ n, n ∈ s.groupNames ↔ ∃ l ∈ s.lights, l.group = n := by
+  refine ⟨dedupSorted_strict _ (C04_sortNames_sorted _), fun n => ?_⟩
+  unfold State.groupNames
+  rw [mem_dedupSorted, (C04_sortNames_perm _).mem_iff]
+  simp
+
+theorem C04_locationNames (s : State) :
+    s.locationNames.Pairwise (· < ·) ∧ ∀ n, n ∈ s.locationNames ↔ ∃ l ∈ s.lights, l.location = n := by
+  refine ⟨dedupSorted_strict _ (C04_sortNames_sorted _), fun n => ?_⟩
+  unfold State.locationNames
+  rw [mem_dedupSorted, (C04_sortNames_perm _).mem_iff]
+  simp
+
+/-- the members of a group, as `repeat group`/`group "g"` in a list visit them: in name order,
+each light of the group once (as often as the directory lists it) -/
+theorem C04_groupLights (s : State) (g : String) (ms : List String) (h : s.groupLights g = some ms) :
+    ms.Pairwise (· ≤ ·) ∧ ms.Perm ((s.lights.filter (·.group == g)).map (·.name)) := by
+  unfold State.groupLights at h
+  simp only at h
+  split at h
+  · simp at h
+  · simp only [Option.some.injEq] at h
+    subst h
+    exact ⟨C04_sortNames_sorted _, C04_sortNames_perm _⟩
+
+theorem C04_locationLights (s : State) (g : String) (ms : List String)
+    (h : s.locationLights g = some ms) :
+    ms.Pairwise (· ≤ ·) ∧ ms.Perm ((s.lights.filter (·.location == g)).map (·.name)) := by
+  unfold State.locationLights at h
+  simp only at h
+  split at h
+  · simp at h
+  · simp only [Option.some.injEq] at h
+    subst h
+    exact ⟨C04_sortNames_sorted _, C04_sortNames_perm _⟩
+
+/-- when the lights have distinct names, a group's members are visited exactly once each -/
+theorem C04_groupLights_nodup (s : State) (g : String) (ms : List String)
+    (hd : (s.lights.map (·.name)).Nodup) (h : s.groupLights g = some ms) : ms.Nodup := by
+  have hp := (C04_groupLights s g ms h).2
+  rw [hp.nodup_iff]
+  exact (hd.sublist ((List.filter_sublist).map _))
+
+section IterNames
+open Sem
+
+/-- **iter_names_order (general).**  The names `repeat in a₁ and … and aₙ and b₁ and …` visits
+are those of the first items followed by those of the remaining items, the latter computed in
+the state the former left: sources are visited in the order written. -/
+theorem C04_iter_names_append (as bs : List IterItem) :
+    ∀ (f : Nat) (s s2 : S) (zs : List String), iterNames f (as ++ bs) s = .ok (zs, s2) →
+      ∃ xs s1 ys, iterNames f as s = .ok (xs, s1) ∧ iterNames (f - as.length) bs s1 = .ok (ys, s2) ∧
+        zs = xs ++ ys := by
+  induction as with
+  | nil =>
+    intro f s s2 zs h
+    cases f with
+    | zero => simp [iterNames] at h
+    | succ f => exact ⟨[], s, zs, by simp [iterNames], by simpa using h, rfl⟩
+  | cons a as ih =>
+    intro f s s2 zs h
+    cases f with
+    | zero => simp [iterNames] at h
+    | succ f =>
+      simp only [List.cons_append, iterNames] at h ⊢
+      split at h
+      · simp at h
+      · rename_i xs s1 hone
+        split at h
+        · simp at h
+        · rename_i ys' s2' hrest
+          simp only [Except.ok.injEq, Prod.mk.injEq] at h
+          obtain ⟨rfl, rfl⟩ := h
+          obtain ⟨xs2, s1', ys, h1, h2, rfl⟩ := ih f s1 s2' ys' hrest
+          refine ⟨xs ++ xs2, s1', ys, by simp [h1], by simpa using h2, by simp⟩
+
+/-- an item whose name is a string literal (or `all`) -/
+inductive LitItem : IterItem → Prop
+  | all : LitItem .all
+  | light (x : String) : LitItem (.light (.lit (.str x)))
+  | group (g : String) : LitItem (.group (.lit (.str g)))
+  | location (g : String) : LitItem (.location (.lit (.str g)))
+
+/-- what one source contributes: `all` the sorted, duplicate-free light names; a light itself;
+a group or location its members in name order (nothing if there is no such group) -/
+def itemNames (vm : State) : IterItem → List String
+  | .all => vm.lightNames
+  | .light (.lit (.str x)) => [x]
+  | .group (.lit (.str g)) => (vm.groupLights g).getD []
+  | .location (.lit (.str g)) => (vm.locationLights g).getD []
+  | _ => []
+
+/-- **iter_names_order.**  For literal sources the visiting order of `repeat in i₁ and … and iₙ`
+is the concatenation, in item order, of each item's names (`itemNames`), and computing it
+changes nothing. -/
+theorem C04_iter_names_order (items : List IterItem) (hl : ∀ i ∈ items, LitItem i) :
+    ∀ (f : Nat) (s : S), items.length < f →
+      iterNames f items s = .ok ((items.map (itemNames s.vm)).flatten, s) := by
+  induction items with
+  | nil =>
+    intro f s hf
+    cases f with
+    | zero => omega
+    | succ f => simp [iterNames]
+  | cons a as ih =>
+    intro f s hf
+    cases f with
+    | zero => omega
+    | succ f =>
+      have hf' : as.length < f := by simpa using hf
+      have ih' := ih (fun i hi => hl i (by simp [hi])) f s hf'
+      cases f with
+      | zero => omega
+      | succ f =>
+        have ha := hl a (by simp)
+        cases ha with
+        | all => simp [iterNames, ih', itemNames]
+        | light x => simp [iterNames, evalRv, ih', itemNames]
+        | group g => simp [iterNames, evalRv, ih', itemNames]
+        | location g => simp [iterNames, evalRv, ih', itemNames]
+
+end IterNames
+
+
 end Bardolph
